@@ -3,7 +3,8 @@
 use crate::rng::Rng;
 use crate::rt::*;
 
-pub const ATOMS: [&str; 11] = ["a", "b", "foo", "Alfred", "x1", "a b", "snake_case", "big red dog", "Zürich", "日本", "père Noël"];
+// ("ab" and "a b" differ only by a blank inside the atom)
+pub const ATOMS: [&str; 12] = ["a", "b", "foo", "Alfred", "x1", "a b", "ab", "snake_case", "big red dog", "Zürich", "日本", "père Noël"];
 pub const FUNCTORS: [&str; 5] = ["p", "q", "foo", "bar_1", "r2"];
 pub const VARS: [&str; 5] = ["$X", "$Y", "$Z", "$Head", "$T1"];
 
